@@ -1,11 +1,64 @@
 package main
 
 import (
+	"fmt"
 	"os"
+	"os/exec"
 	"path/filepath"
+	"strings"
 )
 
 func cmdSelftest(args []string) int { return 2 }
+
+var corpus = []struct{ Dir, Type string }{
+	{"alltypes", "AllTypes"},
+	{"doc", "Document"},
+	{"nest3", "Nest3"},
+}
+
+func goEnv() []string {
+	return append(os.Environ(), "GOFLAGS=-mod=mod", "GOPROXY=off", "GOSUMDB=off", "GOTOOLCHAIN=local")
+}
+
+func runCmd(dir string, name string, args ...string) (string, error) {
+	cmd := exec.Command(name, args...)
+	cmd.Dir = dir
+	cmd.Env = goEnv()
+	out, err := cmd.CombinedOutput()
+	if err != nil {
+		return string(out), fmt.Errorf("%s %s: %v\n%s", name, strings.Join(args, " "), err, out)
+	}
+	return string(out), nil
+}
+
+// generateCorpus builds parquetgen from the working tree and generates code
+// for the struct corpus into a scratch module.
+func (e *Engine) generateCorpus(verifDir, tmp string) (string, error) {
+	gen := filepath.Join(tmp, "gen")
+	bin := filepath.Join(tmp, "parquetgen")
+	if _, err := runCmd(e.repo, "go", "build", "-o", bin, "./cmd/parquetgen"); err != nil {
+		return "", fmt.Errorf("building parquetgen: %v", err)
+	}
+	os.MkdirAll(gen, 0o755)
+	gomod := fmt.Sprintf("module %s\n\ngo 1.20\n\nrequire github.com/parsyl/parquet v0.0.0\n\nreplace github.com/parsyl/parquet => %s\n", genModule, e.repo)
+	os.WriteFile(filepath.Join(gen, "go.mod"), []byte(gomod), 0o644)
+	if b, err := os.ReadFile(filepath.Join(e.repo, "go.sum")); err == nil {
+		os.WriteFile(filepath.Join(gen, "go.sum"), b, 0o644)
+	}
+	for _, c := range corpus {
+		d := filepath.Join(gen, c.Dir)
+		os.MkdirAll(d, 0o755)
+		src, err := os.ReadFile(filepath.Join(verifDir, "corpus", c.Dir, c.Dir+".go"))
+		if err != nil {
+			return "", err
+		}
+		os.WriteFile(filepath.Join(d, c.Dir+".go"), src, 0o644)
+		if _, err := runCmd(d, bin, "-input", c.Dir+".go", "-type", c.Type, "-package", c.Dir, "-output", "parquet.go"); err != nil {
+			return "", fmt.Errorf("parquetgen on corpus %s: %v", c.Dir, err)
+		}
+	}
+	return gen, nil
+}
 
 // setup: scratch dir, contracts, packages.
 func (e *Engine) setup(verifDir string, gen bool, keep string) (func(), error) {
@@ -23,7 +76,17 @@ func (e *Engine) setup(verifDir string, gen bool, keep string) (func(), error) {
 		return cleanup, err
 	}
 	pats := []string{"github.com/parsyl/parquet", "github.com/parsyl/parquet/internal/rle", "github.com/parsyl/parquet/internal/bitpack"}
-	if err := e.load(pats, e.repo); err != nil {
+	dir := e.repo
+	if gen {
+		g, err := e.generateCorpus(verifDir, tmp)
+		if err != nil {
+			return cleanup, err
+		}
+		e.genRoot = g
+		dir = g
+		pats = append(pats, "./...")
+	}
+	if err := e.load(pats, dir); err != nil {
 		return cleanup, err
 	}
 	return cleanup, nil
